@@ -379,12 +379,8 @@ def run(ctx):
                               finding_key_of=lambda k, pl: 'model:%s' % pl.get('section'))
     found_input = st.found_input or nbad > 0
     # database part (FingerprintDatabase.__eq__), built with the database model
-    try:
-        import importlib
-        dbpart = importlib.import_module('props.c09_db')
-    except ImportError:
-        dbpart = None
-        ctx.notes.append('props/c09_db.py not present: FingerprintDatabase.__eq__ not exercised in this run')
+    import importlib
+    dbpart = importlib.import_module('props.c09_db')          # a missing or broken part fails the check (no silent degradation)
     if dbpart is not None:
         found_input = bool(dbpart.part(ctx)) or found_input
     ctx.coverage['rule'] = ('pairs (a, related(a)) with related in {equal, other level incl. None, other bits, strict subset, strict superset, overlap, '
